@@ -395,7 +395,9 @@ func (g *G[P, F, S]) ScalarMulCase(t *rapid.T) {
 	}
 	g.expect(t, fmt.Sprintf("%s(%s = %v, scalar class %s %s)", method, x.tag(), x.ref, kcl, via), got, want)
 	g.expect(t, "operand after "+method, x.lib, x.ref)
-	vlib.Case(test, vlib.Desc(g.name, method, x.class, kcl), true,
+	// non-trivial unless both the point and the scalar are plain drawn values
+	nt := x.special() || (kcl != "drawn" && kcl != "small")
+	vlib.Case(test, vlib.Desc(g.name, method, x.class, kcl), nt,
 		"curve="+g.name, "method="+method, "point="+x.class, "scalar="+kcl, "via="+via, "neutral="+fmt.Sprint(c.IsNeutral(want)))
 	vlib.Sample("scalarmul", map[string]any{"curve": g.name, "method": method, "point": x.tag(), "scalar": kcl, "result": want.String()})
 }
@@ -435,7 +437,8 @@ func (g *G[P, F, S]) ScalarLaws(t *rapid.T) {
 	if err != nil || !g.ref.IsOnCurve(lr) {
 		t.Fatalf("%s: law %s: result is not a point of the curve: %v %v", g.name, law, lr, err)
 	}
-	vlib.Case(test, vlib.Desc(g.name, law, p.class, q.class, acl, bcl), true, "curve="+g.name, "law="+law, "a="+acl, "p="+p.class)
+	nt := p.special() || (law == "distribute-point" && q.special()) || acl != "drawn" || (bcl != "drawn" && (law == "compose" || law == "distribute-scalar"))
+	vlib.Case(test, vlib.Desc(g.name, law, p.class, q.class, acl, bcl), nt, "curve="+g.name, "law="+law, "a="+acl, "p="+p.class)
 }
 
 func TestScalarLaws(t *testing.T) {
